@@ -38,6 +38,7 @@ def dispatch (j : Json) : P Json := do
   | "txn" => opTxn j
   | "pyint16" => opPyInt j
   | "event" => opEvent j
+  | "eventlog" => opEventLog j
   | o => throw s!"bad-op {o}"
 
 def handle (line : String) : String :=
